@@ -320,14 +320,16 @@ PROPS["C07"] = {
 
 PROPS["C20"] = {
     "lean": ["MysyncProofs.C20"],
-    "go": [("internal/app", "^TestVerifC20$"), ("internal/app", "^TestVerifSim$")],
+    "go": [("internal/app", "^TestVerifC20$"), ("internal/app", "^TestVerifSim$"),
+           # every handler-level harness recovers panics of the real handler: they are C20 violations wherever they occur
+           ("internal/app", "^TestVerifC05$"), ("internal/app", "^TestVerifC11$"), ("internal/app", "^TestVerifC16"), ("internal/app", "^TestVerifC01$")],
     "level": "proof",
     "components": _SIM_COMPONENTS + ["explicit panic outcomes in Manager / Switchover / Recovery / ActiveNodes / Cascade models (each tied to the code by its own differential check, which compares the panic outcome too)"],
     "trusted": _SIM_TRUSTED + ["panic sites are identified by file:line of the first mysync frame below the panic"],
-    "rule": "21 kinds of ill-formed contents / hostile environments applied to a running 2-4 node cluster (recorded master / active list / stream_from / request naming an unregistered host, hosts registered or removed while running, unparsable values in switch / master / active_nodes / maintenance / health / last_switch, a replica that is no replica, a master that reports a replication source, every statement failing / hanging, coordination service down), alone and together with one fault of the C02 catalogue; every loop of every daemon runs under recover(); goroutines before/after each run and open connections per server are counted; plus all runs of the C02 grid. distinct = distinct run; non-trivial = always",
+    "rule": "21 kinds of ill-formed contents / hostile environments applied to a running 2-4 node cluster (recorded master / active list / stream_from / request naming an unregistered host, hosts registered or removed while running, unparsable values in switch / master / active_nodes / maintenance / health / last_switch, a replica that is no replica, a master that reports a replication source, every statement failing / hanging, coordination service down), alone and together with one fault of the C02 catalogue; every loop of every daemon runs under recover(); goroutines before/after each run and open connections per server are counted; plus all runs of the C02 grid; plus every iteration of the manager (C05), recovery (C11), cascade (C16) and switchover (C01) harnesses, where a recovered panic of the real handler is reported as C20:panic-in-handler:<kind>. distinct = distinct run; non-trivial = always",
     "assumptions": [],
     "min_lines": 40,
-    "level_text": "PARTIAL. Proved on the models: the exact conditions under which a manager iteration, the switchover procedure, the recovery check and the membership classification can die (none of them on inputs whose views are complete; never for an unregistered recorded master). Five crash sites reachable from contents the property names were found on the pinned tree and repaired (fix: commits, known_findings.json). Decided on the real daemons: no recovered panic, no goroutine left behind, no accumulating connections in any simulated run.",
+    "level_text": "PARTIAL. Proved on the models: the exact conditions under which a manager iteration, the switchover procedure, the recovery check and the membership classification can die (none of them on inputs whose views are complete; never for an unregistered recorded master). Seven crash sites reachable from contents the property names were found on the pinned tree and repaired (fix: commits, known_findings.json). Decided on the real daemons: no recovered panic, no goroutine left behind, no accumulating connections in any simulated run.",
     "level_note": "Data races are NOT decided: no executable model of the logic exhibits one (DESIGN.md §not applicable in part); goroutine and connection accounting is runtime behaviour observed by the simulation only.",
     "technique": "Lean 4 characterisation theorems of the modelled panic sites + chaos simulation of the real daemons under recover()",
 }
